@@ -491,3 +491,60 @@ def fold_bool(term):
         return None
 
     return rewrite(term, f)
+
+
+def derive_atoms(guards) -> set:
+    """Unit propagation over a path's guards: conjunctions that hold and disjunctions that fail are split into their
+    operands; a conjunction that fails with all operands but one known to hold makes the remaining one fail (dually for
+    a disjunction that holds).  Returns {(atom, truth)} with `not x` folded into the truth value."""
+    facts = set()
+
+    def norm(g, pol):
+        while g[0] == "not":
+            g, pol = g[1], not pol
+        return g, pol
+
+    pending = [norm(g, pol) for g, pol in guards]
+    facts |= set(pending)  # a compound guard is itself a fact (it may be an operand of another one)
+    changed = True
+    while changed:
+        changed = False
+        nxt = []
+        for g, pol in pending:
+            if g[0] == "boolop" and ((g[1] == "and" and pol) or (g[1] == "or" and not pol)):
+                for x in g[2]:
+                    nxt.append(norm(x, pol))
+                changed = True
+            elif g[0] == "boolop":
+                # failing conjunction / holding disjunction
+                want = pol  # operands' value that would *not* decide it: and/False -> True ; or/True -> False
+                ops = [norm(x, True) for x in g[2]]
+                undecided = []
+                decided = False
+                for x, xp in ops:
+                    # value of the operand x (with its own polarity folded)
+                    known = [t for (a, t) in facts if a == x]
+                    if not known:
+                        undecided.append((x, xp))
+                        continue
+                    val = known[0] if xp else not known[0]
+                    if (g[1] == "and" and not val) or (g[1] == "or" and val):
+                        decided = True
+                if decided:
+                    continue
+                if len(undecided) == 1:
+                    x, xp = undecided[0]
+                    val = (g[1] == "or")  # the remaining operand of a failing `and` is False; of a holding `or` True
+                    fact = (x, val if xp else not val)
+                    if fact not in facts:
+                        facts.add(fact)
+                        changed = True
+                else:
+                    nxt.append((g, pol))
+                del want
+            else:
+                if (g, pol) not in facts:
+                    facts.add((g, pol))
+                    changed = True
+        pending = nxt
+    return facts
